@@ -276,7 +276,7 @@ def _run_pair(R, defn, b, k, cases, label, *, disabled=False, exact=False):
             R.add([K.V("generated:does-not-compile", f"generated filter failed to compile: {eb.compile_err[-1200:]}", defn=defn)])
             return
         sname = eb.sensors[0] if len(eb.sensors) == 1 else None
-        cmds = [eb.cal_cmd(defn["calibration_map"])]
+        cmds = ["CFG", eb.cal_cmd(defn["calibration_map"])]
         for tag, sn, x, P, z, expect in cases:
             cmds.append(eb.sm_cmd(sn, x, P, z))
         res = eb.run(cmds, timeout=300)
@@ -284,8 +284,13 @@ def _run_pair(R, defn, b, k, cases, label, *, disabled=False, exact=False):
             R.add([K.V("generated:sanitizer-or-crash", f"generated filter driver rc={res['rc']}: {res['err'][-1500:]} {res['out'][-300:]}", defn=defn)])
             return
         R.stats.inc("sanitizer_runs_clean")
+        # the threshold compiled into the generated filter must be exactly the configured one
+        for key, txt in eb.check_cfg(res["lines"][0], {"innovation_filtering": cfg_k, "common_subexpression_elimination": False}):
+            if "innovation_filtering" in key:
+                R.add([K.V(key, f"{label}: {txt}", defn=defn, k=cfg_k)])
+        R.stats.inc("generated_threshold_constants_checked")
         names = sorted(defn["state"])
-        for (tag, sn, x, P, z, expect), toks in zip(cases, res["lines"][1:]):
+        for (tag, sn, x, P, z, expect), toks in zip(cases, res["lines"][2:]):
             same_cpp, x_cpp, P_cpp, has_cpp, y_cpp = eb.parse_sm(sn, toks)
             st = ekf.State(**x)
             cov = monitors.cov_from_matrix(ekf.Covariance, np.array(P), names)
@@ -383,7 +388,7 @@ def _randfilter(R, rng, ctx, i):
     defn = gen.program(rng, n_state=(1, 4), n_control=(0, 0), n_calib=(0, 2), n_sensor=(1, 2),
                        n_reading=(1, 3), depth=2, allow_text=False)
     b = build.Built(defn)
-    k = rng.choice([1.0, 2.0, 5.0])
+    k = rng.choice([1.0, 2.0, 5.0, 2.718281828459045, 3.0000004, 1.0000001, 0.3333333333333333])
     disabled = (i % 3 == 2)
     ectx = monitors.EkfCtx(defn)
     names = sorted(defn["state"])
